@@ -379,3 +379,39 @@ Proof.
   unfold rest, batch_start. cbn [b_flush b_cur b_todo b_seen b_ins b_n b_c].
   destruct (bc_fin _) as [[s' n'] c']. cbn [fst snd]. auto.
 Qed.
+
+(* ====================================================================== *)
+(* the scheduler's fuel is enough to reach the next yield                 *)
+(* ====================================================================== *)
+
+Definition need (b : bco) : nat := match b_flush b with Some _ => 1%nat | None => batch_fuel b end.
+
+(* with at least [need b] units the run stops at a yield: more fuel changes nothing *)
+Lemma batch_step_enough : forall fuel n b s, (need b <= fuel)%nat ->
+  batch_step (fuel + n) b s = batch_step fuel b s.
+Proof.
+  induction fuel as [|f IH]; intros n b s Hn.
+  - exfalso. unfold need, batch_fuel in Hn. destruct (b_flush b); lia.
+  - cbn [Nat.add batch_step]. unfold need in Hn.
+    destruct (b_flush b) as [[|[t srcs] rest]|] eqn:Ef; [reflexivity|reflexivity|].
+    unfold batch_fuel in Hn.
+    destruct (b_cur b) as [[[src [|t rest]] done]|] eqn:Ec.
+    + apply IH. unfold need, batch_fuel. cbn [b_flush b_cur b_todo]. lia.
+    + destruct (mem_bytes t (b_seen b)); [|reflexivity].
+      apply IH. unfold need, batch_fuel. cbn [b_flush b_cur b_todo length] in *. lia.
+    + destruct (b_todo b) as [|[src tgts] todo] eqn:Et.
+      * apply IH. unfold need. cbn [b_flush]. lia.
+      * cbn [length fold_right snd] in Hn.
+        destruct (mem_bytes src (b_seen b)).
+        -- apply IH. unfold need, batch_fuel. cbn [b_flush b_cur b_todo]. lia.
+        -- unfold b_see. cbn [b_todo b_cur b_seen b_ins b_flush b_n b_c].
+           destruct (add_page_int src true s) as [[s' n'] c'].
+           apply IH. unfold need, batch_fuel. cbn [b_flush b_cur b_todo]. lia.
+Qed.
+
+Corollary batch_fuel_enough : forall n b s,
+  batch_step (batch_fuel b + n) b s = batch_step (batch_fuel b) b s.
+Proof.
+  intros n b s. apply batch_step_enough. unfold need. destruct (b_flush b); [|lia].
+  unfold batch_fuel. lia.
+Qed.
